@@ -184,6 +184,12 @@ func runC17(s *core.Sim, tier string) RunInfo {
 					s.Violate("head-not-on-chain", nil, "Head()=%v", hd)
 					return
 				}
+				if hd.Height() < delTo {
+					// the head this reader has just been told lies inside the range the deleter removes
+					// (a deletion up to the first appended height): it may be gone a moment later
+					s.Yield("reader-pause")
+					continue
+				}
 				g, err := w.St.GetByHeight(ctx, hd.Height())
 				if err != nil || !simhdr.Equal(g, hd) {
 					s.Violate("head-not-retrievable", map[string]string{"by": "height"}, "reader%d: Head()=%v but GetByHeight(%d)=%v,%v [%s; %v]", ri, hd, hd.Height(), g, err, w.cfg(), plan)
